@@ -15,6 +15,12 @@ From GZ Require Import C01.Model.
 Import ListNotations.
 Open Scope Z_scope.
 
+Inductive sqlmeth :=
+| MExec | MPrepare | MQueryRow | MQueryRowPartial | MQueryRows | MQueryRowsPartial | MTransact.
+
+Definition is_query (m : sqlmeth) : bool :=
+  match m with MQueryRow | MQueryRowPartial | MQueryRows | MQueryRowsPartial => true | _ => false end.
+
 Inductive wkind :=
 | WGrpcClient          (* clientinterceptors.BreakerInterceptor *)
 | WGrpcServerUnary     (* serverinterceptors.UnaryBreakerInterceptor *)
@@ -24,7 +30,10 @@ Inductive wkind :=
 | WRedisPipeline       (* breakerHook.ProcessPipelineHook *)
 | WRedisReal           (* a Redis client on a real (mini)redis server: same hook *)
 | WSqlExec             (* commonSqlConn.ExecCtx *)
-| WSqlPredicate.       (* commonSqlConn.acceptable alone *)
+| WSqlPredicate        (* commonSqlConn.acceptable alone *)
+| WSqlM (m : sqlmeth) (usectx : bool).
+                       (* the other breaker-wrapped methods of commonSqlConn: the *Ctx variant
+                          (usectx) or the one that delegates with context.Background() *)
 
 (* what the downstream (invoker / handler / next hook / driver) does *)
 Inductive derr :=
@@ -39,7 +48,11 @@ Inductive derr :=
 | DSqlAcceptable         (* sqlx acceptableError{..} *)
 | DOther                 (* any other error *)
 | DPanic
-| DWrappedCanceled.      (* fmt.Errorf("%w", context.Canceled) *)
+| DWrappedCanceled       (* fmt.Errorf("%w", context.Canceled) *)
+| DSqlCustom (i n : Z)   (* the error accepted by the i-th WithAcceptable option, on a connection made with n of them *)
+| DSqlConnErr            (* the connection provider fails (the database is never reached) *)
+| DSqlScanFail           (* the query succeeds, scanning the rows into the destination fails *)
+| DSqlScanDeadline.      (* iterating the rows ends with context.DeadlineExceeded *)
 
 (* gRPC codes: Canceled 1 Unknown 2 DeadlineExceeded 4 ResourceExhausted 8 Unimplemented 12
    Internal 13 Unavailable 14 DataLoss 15 *)
@@ -68,12 +81,19 @@ Definition redis_acceptable (d : derr) : bool :=
   | _ => false
   end.
 
-(* commonSqlConn.acceptable without a WithAcceptable option *)
+(* commonSqlConn.acceptable: nil, ErrNoRows, ErrTxDone, context.Canceled (errors.Is),
+   acceptableError (errors.As), then the WithAcceptable options (pre(err) || acceptable(err)) *)
 Definition sql_acceptable (d : derr) : bool :=
   match d with
   | DNil | DSqlNoRows | DSqlTxDone | DCtxCanceled | DWrappedCanceled | DSqlAcceptable => true
+  | DSqlCustom i n => (1 <=? i) && (i <=? n)
   | _ => false
   end.
+
+(* queryRows: func(err) bool { return scanFailed || db.acceptable(err) } - a scan failure is
+   the caller's fault, not the database's; isScanFailed excludes DeadlineExceeded *)
+Definition sqlq_acceptable (d : derr) : bool :=
+  match d with DSqlScanFail => true | _ => sql_acceptable d end.
 
 Definition w_acceptable (k : wkind) (d : derr) : bool :=
   match k with
@@ -81,11 +101,12 @@ Definition w_acceptable (k : wkind) (d : derr) : bool :=
   | WGrpcServerUnary | WGrpcServerStream => server_acceptable d
   | WRedisCmd | WRedisIgnoredCmd | WRedisPipeline | WRedisReal => redis_acceptable d
   | WSqlExec | WSqlPredicate => sql_acceptable d
+  | WSqlM m _ => if is_query m then sqlq_acceptable d else sql_acceptable d
   end.
 
 (* does the wrapper look at the context before entering the breaker (the *Ctx entry)? *)
 Definition w_uses_ctx (k : wkind) : bool :=
-  match k with WGrpcServerStream => false | _ => true end.
+  match k with WGrpcServerStream => false | WSqlM _ u => u | _ => true end.
 
 (* what the caller of the wrapper sees *)
 Inductive seen :=
